@@ -52,6 +52,7 @@ type Step struct {
 	Nodes    []string `json:"nodes"`
 	Has      []string `json:"has"`
 	Gone     []string `json:"gone"`  // nodes whose only upstream had sent go-away before the request
+	Rejoin   []string `json:"rejoin"` // nodes whose upstream is the reconnection of a listener whose first upstream went away
 	Dereg    []string `json:"dereg"` // those of them whose registry does not list the endpoint afterwards
 	Bel      []Belief `json:"bel"`
 	Entry    string   `json:"entry"`
@@ -320,8 +321,9 @@ type emitter func(*Step)
 // ---- C06 ---------------------------------------------------------------------
 
 type c06case struct {
-	has   []string
-	gone  []string
+	has    []string
+	gone   []string
+	rejoin []string
 	bel   map[string][]string
 	entry string
 	ext   string
@@ -331,7 +333,9 @@ type c06case struct {
 func runC06(c *cluster, cases []c06case, emit emitter) error {
 	ids := c.ids()
 	// group by placement so listeners are only re-created when it changes
-	keyOf := func(cs c06case) string { return strings.Join(cs.has, ",") + "|" + strings.Join(cs.gone, ",") }
+	keyOf := func(cs c06case) string {
+		return strings.Join(cs.has, ",") + "|" + strings.Join(cs.gone, ",") + "|" + strings.Join(cs.rejoin, ",")
+	}
 	sort.SliceStable(cases, func(i, j int) bool { return keyOf(cases[i]) < keyOf(cases[j]) })
 	var cur string
 	var ups []*psim.Upstream
@@ -385,6 +389,38 @@ func runC06(c *cluster, cases []c06case, emit emitter) error {
 		time.Sleep(30 * time.Millisecond) // the go-away frame is on its way; nothing observable tells when it arrived
 		return nil
 	}
+	// the history behind a reconnected upstream: a first upstream registers, announces go-away, a request on the
+	// node uses it up (the proxy removes it on ErrGone); the caller then connects the listener again and calls the
+	// returned function, which ends the first session - its handler's deferred removal runs for an upstream that
+	// is no longer registered while its successor is
+	beforeRejoin := func(id string) (func(), error) {
+		g, err := psim.Listen(context.Background(), c.byID[id].UpstreamAddr(), "e", "g-"+id, "", "")
+		if err != nil {
+			return nil, err
+		}
+		if !psim.WaitFor(30*time.Second, func() bool { return registers(id) }) {
+			g.Shutdown()
+			return nil, fmt.Errorf("the first upstream of %s did not register", id)
+		}
+		_ = g.Ln.Close()
+		for i := 0; i < 100 && registers(id); i++ {
+			time.Sleep(30 * time.Millisecond)
+			_ = psim.Request(c.byID[id].ProxyAddr(), "header", "e", "GET", "/c06-rejoin", nil, nil)
+		}
+		if registers(id) {
+			g.Shutdown()
+			return nil, fmt.Errorf("the go-away upstream of %s was never removed by a request", id)
+		}
+		return func() { g.Shutdown(); time.Sleep(50 * time.Millisecond) }, nil
+	}
+	advertised := func(has []string) bool {
+		for _, id := range ids {
+			if !othersKnow(id, contains(has, id)) {
+				return false
+			}
+		}
+		return true
+	}
 	first := true
 	for _, cs := range cases {
 		key := keyOf(cs)
@@ -421,14 +457,34 @@ func runC06(c *cluster, cases []c06case, emit emitter) error {
 				return fmt.Errorf("did not settle after clearing the placement")
 			}
 			for _, id := range cs.has {
+				var endFirst func()
+				if contains(cs.rejoin, id) {
+					f, err := beforeRejoin(id)
+					if err != nil {
+						return err
+					}
+					endFirst = f
+				}
 				u, err := psim.Listen(context.Background(), c.byID[id].UpstreamAddr(), "e", "u-"+id, "", "")
 				if err != nil {
 					return err
 				}
 				ups = append(ups, u)
+				if endFirst != nil {
+					if !psim.WaitFor(30*time.Second, func() bool { return registers(id) }) {
+						return fmt.Errorf("the reconnected upstream of %s did not register", id)
+					}
+					endFirst()
+				}
 			}
 			cur = key
-			if !psim.WaitFor(30*time.Second, func() bool { return psim.Settled(c.nodes, "") }) {
+			if len(cs.rejoin) > 0 {
+				// judged by the request, not by the node's own report of its registry: wait for what the others learn
+				if !psim.WaitFor(30*time.Second, func() bool { return advertised(cs.has) }) {
+					return fmt.Errorf("placement %v (reconnected: %v) was not advertised", cs.has, cs.rejoin)
+				}
+				time.Sleep(50 * time.Millisecond)
+			} else if !psim.WaitFor(30*time.Second, func() bool { return psim.Settled(c.nodes, "") }) {
 				return fmt.Errorf("did not settle for placement %v", cs.has)
 			}
 			for _, id := range cs.gone {
@@ -479,7 +535,7 @@ func runC06(c *cluster, cases []c06case, emit emitter) error {
 			rep = tcpRequest(c.byID[cs.entry].ProxyAddr(), "e", cs.ext)
 		}
 		after := c.quiesce()
-		s := &Step{Op: "Route", Nodes: ids, Has: cs.has, Gone: []string{}, Dereg: []string{}, Entry: cs.entry, Ext: cs.ext,
+		s := &Step{Op: "Route", Nodes: ids, Has: cs.has, Gone: []string{}, Dereg: []string{}, Rejoin: append([]string{}, cs.rejoin...), Entry: cs.entry, Ext: cs.ext,
 			Route: cs.route, Status: rep.Status}
 		for _, id := range cs.gone {
 			s.Gone = append(s.Gone, id)
@@ -552,6 +608,18 @@ func allC06(ids []string) []c06case {
 					for _, ext := range []string{"none", "forged", "false", "hide"} {
 						for _, route := range []string{"http", "tcp"} {
 							out = append(out, c06case{has: has, gone: gone, bel: bel, entry: entry, ext: ext, route: route})
+						}
+					}
+				}
+			}
+		}
+		// every placement again with one of its upstreams being a reconnection after a go-away
+		for _, r := range has {
+			for _, bel := range belChoices {
+				for _, entry := range ids {
+					for _, ext := range []string{"none", "forged"} {
+						for _, route := range []string{"http", "tcp"} {
+							out = append(out, c06case{has: has, gone: []string{}, rejoin: []string{r}, bel: bel, entry: entry, ext: ext, route: route})
 						}
 					}
 				}
@@ -823,6 +891,9 @@ func main() {
 		if s.Dereg == nil {
 			s.Dereg = []string{}
 		}
+		if s.Rejoin == nil {
+			s.Rejoin = []string{}
+		}
 		if s.Runs == nil {
 			s.Runs = []Run{}
 		}
@@ -851,7 +922,7 @@ func main() {
 			s.Fields = []string{}
 		}
 		if s.Cmd == "" {
-			b, _ := json.Marshal([]interface{}{s.Op, s.Nodes, s.Has, s.Bel, s.Entry, s.Ext, s.Route, s.Mode, s.Target, s.Placed, s.Gone})
+			b, _ := json.Marshal([]interface{}{s.Op, s.Nodes, s.Has, s.Bel, s.Entry, s.Ext, s.Route, s.Mode, s.Target, s.Placed, s.Gone, s.Rejoin})
 			s.Cmd = string(b)
 		}
 		steps++
@@ -891,6 +962,9 @@ func main() {
 				if len(arr) > 10 {
 					_ = json.Unmarshal(arr[10], &s.Gone)
 				}
+				if len(arr) > 11 {
+					_ = json.Unmarshal(arr[11], &s.Rejoin)
+				}
 				c, err := startCluster(len(s.Nodes))
 				if err != nil {
 					fail(err)
@@ -901,7 +975,7 @@ func main() {
 					for _, x := range s.Bel {
 						bel[x.N] = x.B
 					}
-					if err := runC06(c, []c06case{{has: s.Has, gone: s.Gone, bel: bel, entry: s.Entry, ext: s.Ext, route: s.Route}}, emit); err != nil {
+					if err := runC06(c, []c06case{{has: s.Has, gone: s.Gone, rejoin: s.Rejoin, bel: bel, entry: s.Entry, ext: s.Ext, route: s.Route}}, emit); err != nil {
 						fail(err)
 					}
 				case "Place":
